@@ -123,6 +123,43 @@ func checkCase(c *Case, count bool) error {
 		if min > 0 && count {
 			stats.Excluded("sporadic allocations (fewer than one per request) - not attributed to the router")
 		}
+		// the other entry points that route a request to its route: Router.Lookup (with a writer, and with none when only the
+		// route is wanted) followed by Close, and Router.Reverse
+		fw := rt.Writer(w, req)
+		for _, ep := range []struct {
+			name string
+			fn   func()
+		}{
+			{"Router.Lookup(w, r) + Close", func() {
+				if _, cc, _ := f.Lookup(fw, req); cc != nil {
+					cc.Close()
+				}
+			}},
+			{"Router.Lookup(nil, r) + Close", func() {
+				if _, cc, _ := f.Lookup(nil, req); cc != nil {
+					cc.Close()
+				}
+			}},
+			{"Router.Reverse", func() { f.Reverse(q.Method, q.Host, q.Path) }},
+		} {
+			for i := 0; i < 5; i++ {
+				ep.fn()
+			}
+			min := ^uint64(0)
+			for attempt := 0; attempt < 3 && min != 0; attempt++ {
+				if d := measure(ep.fn); d < min {
+					min = d
+				}
+			}
+			if count {
+				stats.Eval()
+				stats.Class("entry-point:" + ep.name)
+			}
+			if min >= runs {
+				return fmt.Errorf("options %+v routes(%s)=%q request host=%q path=%q matching %q: %s makes %d heap allocations in %d calls in each of 3 measurements (after warm-up, GC off)",
+					c.G, q.Method, pats, q.Host, q.Path, pats[want.Route], ep.name, min, runs)
+			}
+		}
 	}
 	return nil
 }
